@@ -121,7 +121,7 @@ def redirects(world, acc):
 def run_shard(spec, acc):
     runner.quiet()
     rng = random.Random('c19-%s-%s' % (spec['seed'], spec['shard']))
-    n_hist, jobs = (7, 14) if spec['tier'] == 'quick' else (45, 22)
+    n_hist, jobs = (7, 14) if spec['tier'] == 'quick' else (80, 22)
     cfgs = configs()
     prof = gen.profile(
         p_green=0.85, p_forward=0.45, p_conflict=0.1,
